@@ -577,9 +577,9 @@ def run():
                 rule='a case is one (class, concrete state, operation instance) or one (class, constructed pair list) '
                      'on which all readers are compared with the pair-list model; non-trivial = the state has a key '
                      'with several pairs or the operation changes the pair list',
-                bounds=dict(quick='3 classes; readers (~45 per state, incl. 16 ==/!= probes, 4 copy forms, pickle protocols 0/1/2/5) on all '
+                bounds=dict(quick='3 classes; 34 readers + up to 20 ==/!= probes per state (incl. 3 copy forms, pickle protocols 0/1/2/5) on all '
                                   'pair lists of length <= 3 over keys {a,b,c} x values {1,2} and of length <= 2 over keys {None,0,(1,2)} x '
-                                  'values {None,"v",[0]}; 24 constructor forms; histories: every one of 135 operation instances (all public '
+                                  'values {None,"v",[0]}; 16 constructor forms; histories: every one of 98 operation instances (all public '
                                   'mutators x argument forms dict / OMD / list / one-shot iterator / kwargs / the OMD itself, copies) from '
                                   'every distinct concrete state reached within 2 steps of the empty OMD (all histories <= 3) and within 1 '
                                   'step of 4 seed states with repeated keys (<= 2); QueryParamDict <= 2 / <= 2',
